@@ -1,6 +1,10 @@
 (* C13 — statements only. *)
 From N2 Require Import Model.All.
-From N2 Require Import Proofs.CanonBase Proofs.CanonProps.
+From N2 Require Import Proofs.CanonBase Proofs.CanonProps Proofs.CanonRefine Proofs.CanonSame.
+
+Theorem C13_refines : forall p, canon_impl p = canon p.
+Proof. exact canon_refines. Qed.
+Print Assumptions C13_refines.
 
 Theorem C13_total : forall p, p <> [] -> (length (comps p) <= 60)%nat -> exists q, canon p = Ok q.
 Proof. exact canon_total. Qed.
@@ -25,6 +29,10 @@ Print Assumptions C13_sem_preserved.
 Theorem C13_normal_form : forall p q, canon p = Ok q -> normal_form q = true.
 Proof. exact canon_normal_form. Qed.
 Print Assumptions C13_normal_form.
+
+Theorem C13_same_node_partial : forall s p q p' q', uses_only s p = true -> uses_only s q = true -> canon p = Ok p' -> canon q = Ok q' -> sem p = sem q -> ends_dirlike p = ends_dirlike q -> f17_class p = false -> p' = q'.
+Proof. exact canon_same_node_partial. Qed.
+Print Assumptions C13_same_node_partial.
 
 Theorem C13_same_node_refuted :
   exists s p q p' q', uses_only s p = true /\ uses_only s q = true /\ canon p = Ok p' /\ canon q = Ok q' /\
